@@ -108,6 +108,20 @@ where
                 completed_query.revisions.changed_at = zalsa.current_revision();
             }
 
+            // Queries that take part in a cycle are never backdated, so their `changed_at` is
+            // whatever their dependencies say in the execution at hand. Re-executing such a query
+            // (or one that read it) later, inside or outside of the cycle, can therefore yield
+            // an *older* `changed_at` for an equal value, and a dependent that is backdated
+            // against a memo which inherited the newer stamp would look like it had read
+            // untracked state. An equal value never needs a stamp older than its predecessor's.
+            if completed_query.revisions.changed_at < old_memo.header.revisions.changed_at
+                && old_memo
+                    .value()
+                    .is_some_and(|old_value| C::values_equal(old_value, &new_value))
+            {
+                completed_query.revisions.changed_at = old_memo.header.revisions.changed_at;
+            }
+
             // Diff the new outputs with the old, to discard any no-longer-emitted
             // outputs and update the tracked struct IDs for seeding the next revision.
             old_memo
